@@ -28,6 +28,10 @@ type Opts struct {
 	OneLine bool
 	// MoreHeredocs makes every second redirection a here-document.
 	MoreHeredocs bool
+	// SpacedSubstDelim: 1 = some here-document delimiters are double-quoted
+	// words with a backquote substitution that holds two blanks; -1 = they
+	// would be, but are excluded (counted); 0 = never.
+	SpacedSubstDelim int
 }
 
 // Program is one generated complete command.
@@ -1173,6 +1177,13 @@ func (g *g) heredoc(n string) string {
 	if form == 10 && (g.bq || g.o.NoSubst) {
 		form = 8
 	}
+	if g.o.SpacedSubstDelim != 0 && !g.bq && !g.o.NoSubst && g.chance("hd_spaced_subst", 12) {
+		if g.o.SpacedSubstDelim < 0 {
+			g.f("excluded:heredoc_delimiter_spaced_substitution")
+		} else {
+			form = 11
+		}
+	}
 	switch form {
 	default:
 		wordTxt = delim
@@ -1198,6 +1209,16 @@ func (g *g) heredoc(n string) string {
 		h.DelimText = delim
 		h.Quoted = true
 		g.f("heredoc_delimiter_with_dollar_syntax")
+	case 11:
+		// a substitution with blanks in it, inside double-quotes: the
+		// delimiter is that text as written (no expansion, no reformatting)
+		decoy = delim
+		wordTxt = "\"`c  d`" + delim + "\""
+		wparts = []string{skel.Quote(`"`, []string{skel.CmdSubst(false, []string{skel.Cmd(skel.Simple(nil, []string{skel.Word([]string{skel.Lit("c")}), skel.Word([]string{skel.Lit("d")})}), nil)}), skel.Lit(delim)})}
+		delim = "`c  d`" + delim
+		h.DelimText = delim
+		h.Quoted = true
+		g.f("heredoc_delimiter_with_spaced_substitution")
 	case 10:
 		decoy = delim
 		wordTxt = "`c`" + delim
